@@ -99,6 +99,25 @@ def gen(tier):
                     obs.append(kern.Ob("exact/%s/%s@-4->%s@%d" % (mode, S.short, D.short, -4 - d), D.name, [(S.name, "a")],
                                        "return unwrap(convert<%s, %s%s>{}(wrap<%s>(a)));" % (TAGS[mode], TD, ", power<>" if mode == "nearest" else "", TS), ["return (%s)((%s)a * %s);" % (D.name, D.name, D.lit(1 << d))], alts=alts,
                                        may_reject=(mode == "nearest"), meta=dict(mode=mode)))   # nearest: the no-rounding specialisation is declared without a body (ill-formed, not wrong)
+    # radix other than 2 (nearest only: the other modes' scaled->scaled specialisations shift): the bias must be half a
+    # destination unit, Radix^k / 2, whatever the radix (seeded change M-C09-4 made it Radix^k / Radix).  Operands are kept
+    # where adding the bias cannot leave the promoted source rep (that overflow is the recorded finding C09-bias-overflow).
+    for radix in (10, 3):
+        for S in ([I16, I32, I64] if tier == "quick" else [I8, I16, I32, I64]):
+            PS = promote(S)
+            for D in ([I32, I64] if tier == "quick" else [I16, I32, I64]):
+                for k in (1, 2, 4):
+                    unit = radix ** k
+                    h = unit // 2
+                    if unit >= S.max // 4:
+                        continue
+                    lim = min(S.max, PS.max - h)
+                    TS, TD = sname(S.name, -5, radix), sname(D.name, -5 + k, radix)
+                    cnl = "return unwrap(convert<%s, %s, power<0, %d>>{}(wrap<%s>(a)));" % (TAGS["nearest"], TD, radix, TS)
+                    ref = "return (%s)(((%s)a + (a >= 0 ? %s : %s)) / %s);" % (D.name, PS.name, PS.lit(h), PS.lit(-h), PS.lit(unit))
+                    pre = ["a <= %s" % S.lit(lim), "a >= %s" % S.lit(-lim)]
+                    obs.append(kern.Ob("narrow/nearest/r%d/%s@-5->%s@%d" % (radix, S.short, D.short, -5 + k), D.name, [(S.name, "a")], cnl, [ref], pre=pre, may_reject=True,
+                                       meta=dict(anchor="include/cnl/_impl/scaled_integer/convert_operator.h nearest: half()", mode="nearest", k=k, radix=radix)))
     # siblings: constructors use the destination's rounding tag
     for mode in ("nearest", "tie", "neg_inf"):
         for fl in ("float", "double"):
@@ -194,7 +213,7 @@ def _same_floor(df, cf, lo, hi, K, P=None):
     return bad is None, bad
 
 
-FLOOR = {"quick": dict(eq=200, ub=20, fp=18), "thorough": dict(eq=800, ub=100, fp=18)}
+FLOOR = {"quick": dict(eq=235, ub=20, fp=18), "thorough": dict(eq=800, ub=100, fp=18)}
 
 
 def run(tier, seed, work):
